@@ -178,3 +178,20 @@ claim('C09', 'exploration',
       'ICU is trusted (Unicode 15, one library reached through two different APIs).  C1 controls in names are not judged.',
       'runtime monitoring: exhaustive differential against independent ICU entry points plus API-level matching relation',
       'DESIGN.md section 4, C09')
+
+claim('C10', 'exploration',
+      'Acceptance: every string of length <= 5 (thorough 6) over {+ - . 0 1 9 e E ( ) x} plus random longer ones is '
+      'offered to cif_value_parse_numb on a value holding a sentinel - accepted exactly when the numeric grammar matches, '
+      'otherwise CIF_INVALID_NUMBER with the sentinel intact.  Text to double: 60 000 (thorough 1 500 000) boundary-biased '
+      'numbers (exact ties between adjacent doubles and their neighbours, powers of two, 10^9k bignum boundaries, 1-600 '
+      'digit mantissas, exponents -330..+330, su of 1-12 digits, astronomically large exponents for UB only) - '
+      'get_number / get_su must equal the correctly rounded double of the exact rational.  Double to text: 60 000 '
+      '(thorough 1 500 000) init_numb / autoinit_numb calls over the whole exponent range of double including subnormals, '
+      'scales -300..1074, su rules 2..199 and leading-zero limits 0..400 - digits, scale, uncertainty and notation must '
+      'equal the exact-rational rendering (round half even), and the text must parse back to the doubles its digits denote.',
+      'Only zero or normal-range magnitudes are judged for text to double; the sign of zero is not judged.  A su that '
+      'rounds to zero may be omitted or written (0).  For su = 0, integers of more than 15 digits may be rendered to 15 '
+      'digits (correctly rounded).  Notation is not judged where val is within 1e-13 of a power of ten or rounding moved '
+      'the leading digit across the leading-zero limit.',
+      'runtime monitoring: exhaustive acceptance sweep and differential against exact rational arithmetic under ASan/UBSan',
+      'DESIGN.md section 4, C10')
